@@ -336,6 +336,9 @@ def run(ctx):
     ctx.extra["trace_cases_submitted_by_source"] = submitted
     ctx.extra["stress_events"] = stress_events
     ctx.nontrivial = replay_blocking + stress_nontrivial + res["behaviours_with_blocking"]
+    # a replayed behaviour counts once as an execution and its recorded trace once more as a trace validated by TLC:
+    # keep the two counters consistent (evaluations >= traces validated)
+    ctx.evaluations = max(ctx.evaluations, ctx.traces)
     ctx.rule = ("MC: all interleavings of the bounded models listed in mc_runs (safety with symmetry; liveness under weak fairness per thread, "
                 "no constraint). REPLAY: every terminal behaviour of MC_Queue_rseq (one thread, every sequence of 3 calls over push/try_push "
                 "x sizes 0..3 x priorities 0..2, pull, try_pull, close) and MC_Queue_r1p1c (producer, consumer, closer; all interleavings with "
